@@ -166,7 +166,10 @@ def compare(deck, path, pre, prop, flags=None, what=('regions', 'compo', 'valid'
         if v.fictive:
             continue
         groups.setdefault(dk.volume_label(v), []).append(vid)
-    off = offsurface(rf)
+    # points on an MCNP surface or on a written surface are outside the claim (measure zero)
+    for vid in t4.vols:
+        ev.vol(vid)
+    off = offsurface(rf) + [a.z3_cmp('!=') for a in ev.scache.values() if isinstance(a, RatFn)]
     names = {}
     for nm, cnt, ids in t4.geomcomp:
         for vid in ids:
